@@ -1462,7 +1462,6 @@ void TasmanianSparseGrid::readAscii(std::istream &ifs){
     }
     getline(ifs, T); if (!(T.compare("WARNING: do not edit this manually") == 0)){ throw std::runtime_error("ERROR: wrong file format, missing warning message"); }
     ifs >> T;
-    clear();
     if (T.compare("global") == 0){
         new_base = readGridVersion5<GridGlobal>(acceleration.get(), ifs, IO::mode_ascii_type());
     }else if (T.compare("sequence") == 0){
@@ -1535,6 +1534,7 @@ void TasmanianSparseGrid::readAscii(std::istream &ifs){
         }
     }
 
+    clear(); // the stream was parsed successfully, only now replace the current grid
     base = std::move(new_base);
     domain_transform_a = std::move(new_domain_transform_a);
     domain_transform_b = std::move(new_domain_transform_b);
@@ -1556,7 +1556,6 @@ void TasmanianSparseGrid::readBinary(std::istream &ifs){
     if (TSG[3] != '5'){
         throw std::runtime_error("ERROR: wrong binary file format, version number is not '5'");
     }
-    clear();
     std::unique_ptr<BaseCanonicalGrid> new_base = [&](char grid_type)->std::unique_ptr<BaseCanonicalGrid>{
         switch (grid_type){
             case 'g': return readGridVersion5<GridGlobal>(acceleration.get(), ifs, IO::mode_binary_type());
@@ -1609,6 +1608,7 @@ void TasmanianSparseGrid::readBinary(std::istream &ifs){
         }
     }
 
+    clear(); // the stream was parsed successfully, only now replace the current grid
     base = std::move(new_base);
     domain_transform_a = std::move(new_domain_transform_a);
     domain_transform_b = std::move(new_domain_transform_b);
